@@ -5,7 +5,7 @@ journals, against the extracted Coq model (Model/Period.v: the transcribed date_
 machine and interval_posts::flush).
 Oracle: adjacency, lengths, alignment (python datetime/calendar arithmetic, written from the
 property text) and the sum identity against ledger's own plain `reg --begin --end` rows."""
-import calendar, datetime, re
+import calendar, datetime, re, time
 from concurrent.futures import ThreadPoolExecutor
 from fractions import Fraction as F
 import lib
@@ -14,11 +14,12 @@ META = dict(
     id='C13',
     level='proof',
     technique='Coq proof (the transcribed date_interval_t state machine and interval_posts::flush refine a simple specification: consecutive steps of one duration from an anchor, clipped to [from, to)) + differential correspondence of the extracted model against ledger',
-    level_text='Theorems in coq/Properties/Properties_C13.v state, for all durations of at least one unit, all from/to bounds, all week starts and both --align-intervals settings, that adding a duration strictly increases a date (incl. month ends and leap days, boost month arithmetic modelled in Model/PeriodCalendar.v), that the intervals the model of date_interval_t (stabilize / resolve_end / operator++ / find_period, times.cc:1133-1413) steps through are exactly the specification sequence s_0 = anchor, s_{i+1} = s_i + duration clipped to [from, to), that these intervals are consecutive, disjoint, one duration long except where clipped, aligned to month/quarter/year starts or the configured week day, that every date within the bounds lies in exactly one of them, and that the model of interval_posts::flush puts every posting into the group whose interval contains its date, so the group subtotals add up to the total. The model is tied to the code by comparing, on thousands of generated period expressions and journals, the output of `ledger period` and of `reg --period` (row dates, end labels, exact subtotals) with the extracted model.',
+    level_text='Theorems in coq/Properties/Properties_C13.v state, for all durations of at least one unit, all from/to bounds, all week starts and both --align-intervals settings, that adding a duration strictly increases a date (incl. month ends and leap days, boost month arithmetic modelled in Model/PeriodCalendar.v), that the intervals the model of date_interval_t (stabilize / resolve_end / operator++ / find_period, times.cc:1133-1413) steps through are exactly the specification sequence s_0 = anchor, s_{i+1} = s_i + duration clipped to [from, to), that these intervals are consecutive, disjoint, one duration long except where clipped, aligned to month/quarter/year starts or the configured week day, that every date within the bounds lies in exactly one of them, and that the model of interval_posts::flush puts every posting into the group whose interval contains its date, so the group subtotals add up to the total. The model is tied to the code by comparing, on thousands of generated period expressions and journals, the output of `ledger period` and of `reg --period` (row dates, end labels, exact subtotals) with the extracted model. Bounds written in a user --input-date-format: the directive lists from which the date reader derives whether a format has a year, month and day are re-read from src/times.cc on every run (both sites must agree), and a theorem states that a bound written in a format with %Y/%y/%F, %m/%b/%B/%F and %d/%F reaches the interval object as the date the text names. --group-by: whether interval_posts::clear() empties all_posts is re-read from src/filters.h; when it does, each group is reported from its own postings only (theorem), while it does not the model reproduces the carry-over (finding F125, refutation theorem).',
     level_note='Trusted: Coq kernel; extraction + OCaml driver and the python harness for the correspondence; boost::gregorian day-number/ymd conversion and month arithmetic modelled in Model/PeriodCalendar.v (validated against ledger and python datetime); the period-expression parser and the from/to limit predicates added by report_t::normalize_period are glue (the harness renders the expression text and filters the postings by the bounds; the oracle checks that filter against ledger\'s own `reg --begin --end`). Amounts are positive so that no group displays as zero.',
     design_ref='DESIGN.md section 7 C13, section 6.5',
     assumptions=['from < to when both are given', 'postings carry no auxiliary dates; one account and one commodity per report so that a row is one interval',
-                 'posting amounts are positive (a zero group subtotal is hidden by the register report unless --empty)'],
+                 'posting amounts are positive (a zero group subtotal is hidden by the register report unless --empty)',
+                 '--input-date-format values use only the directives %Y %y %m %b %B %d %F, start with a digit and contain no blank (a period date word must); observed on the unchanged tree and not claimed: the reader traits do not know %e, %j, %D or %h, so `monthly from 10-03-2021` under --input-date-format %e-%m-%Y is taken as from 2021/03/01'],
 )
 
 EPOCH = datetime.date(1970, 1, 1).toordinal()
@@ -27,6 +28,12 @@ QNAME = {'d': 'days', 'w': 'weeks', 'm': 'months', 'q': 'quarters', 'y': 'years'
 QSING = {'d': 'day', 'w': 'week', 'm': 'month', 'q': 'quarter', 'y': 'year'}
 NAMED = {'daily': ('d', 1), 'weekly': ('w', 1), 'biweekly': ('w', 2), 'monthly': ('m', 1),
          'bimonthly': ('m', 2), 'quarterly': ('q', 1), 'yearly': ('y', 1)}
+# --input-date-format values: a date word of a period expression must start with a digit and contain no blank
+# (times.cc next_token); month names (%b %B), other field orders and separators, two-digit years, %F.
+# Not generated: %e %j %D %h (see the observation in META: the reader's traits do not know them)
+FORMATS = ['%d-%b-%Y', '%d-%B-%Y', '%d-%m-%Y', '%Y.%m.%d', '%m/%d/%y', '%d.%m.%Y', '%Y%m%d', '%d%b%Y',
+           '%Y-%b-%d', '%d/%m/%Y', '%y.%m.%d', '%d-%b-%y', '%F', '%d-%B-%y', '%Y-%B-%d']
+PAYEES = ['pa', 'pb', 'pc', 'pd']
 MON = ['Jan', 'Feb', 'Mar', 'Apr', 'May', 'Jun', 'Jul', 'Aug', 'Sep', 'Oct', 'Nov', 'Dec']
 
 
@@ -97,14 +104,33 @@ def dur_text(rng, q, n):
     return rng.choice(forms)
 
 
+def bounds_format(case):
+    """the format the bound dates of the expression are written in (and which reader parses them)"""
+    return case.get('bfmt') or '%Y/%m/%d'
+
+
 def expr_text(rng, case):
     s = dur_text(rng, case['q'], case['n'])
-    fmt = rng.choice(['%Y/%m/%d', '%Y/%m/%d', '%Y-%m-%d'])
+    fmt = case.get('bfmt')
+    if fmt is None:
+        # the built-in readers; with --input-date-format the separators are no longer normalised, both still read
+        fmt = rng.choice(['%Y/%m/%d', '%Y/%m/%d', '%Y-%m-%d'])
+    if case['from'] is not None and case['to'] == case['from'] + 1 and rng.random() < 0.7:
+        # a single day: `in D` / a bare date is the range [D, D + 1 day)
+        return s + rng.choice([' in ', ' ']) + nd(case['from']).strftime(fmt)
     if case['from'] is not None:
         s += ' %s %s' % (rng.choice(['from', 'since']), nd(case['from']).strftime(fmt))
     if case['to'] is not None:
         s += ' %s %s' % (rng.choice(['to', 'until']), nd(case['to']).strftime(fmt))
     return s
+
+
+def set_format(rng, case, fmt):
+    """fmt = the --input-date-format of the run (None = none given); the bounds are written in it, or - now
+    and then - in the built-in %Y/%m/%d, which the readers still accept"""
+    case['fmt'] = fmt
+    case['bfmt'] = fmt if (fmt is not None and rng.random() < 0.85) else None
+    case['expr'] = expr_text(rng, case)
 
 
 def boundary_date(rng, lo=2019, hi=2025):
@@ -156,6 +182,8 @@ def gen_bounds(rng, q, n):
             t = None
         if f is not None and t is not None and t <= f:
             t = f + datetime.timedelta(days=rng.choice([1, 3, 40]))
+    if f is not None and rng.random() < 0.04:
+        t = f + datetime.timedelta(days=1)
     return f, t
 
 
@@ -177,11 +205,16 @@ def gen_journal(rng, idx):
             else:
                 dates.append(datetime.date(2019, 1, 1) + datetime.timedelta(days=rng.randrange(2557)))
     rng.shuffle(dates)          # file order is not date order: flush sorts
-    posts = [(d, rng.randrange(1, 100000)) for d in dates]
+    posts = [(d, rng.randrange(1, 100000), rng.choice(PAYEES[:rng.choice([2, 3, 4])])) for d in dates]
+    fmt = rng.choice(FORMATS) if rng.random() < 0.45 else None          # the journal's own date format
+    return dict(idx=idx, posts=posts, text=journal_text(posts, fmt), style=style, fmt=fmt)
+
+
+def journal_text(posts, fmt):
     lines = []
-    for i, (d, c) in enumerate(posts):
-        lines += ['%s p%d' % (d.strftime('%Y/%m/%d'), i), '    Assets:A    $%d.%02d' % (c // 100, c % 100), '    Equity:Open', '']
-    return dict(idx=idx, posts=posts, text='\n'.join(lines) + '\n', style=style)
+    for d, c, payee in posts:
+        lines += ['%s %s' % (d.strftime(fmt or '%Y/%m/%d'), payee), '    Assets:A    $%d.%02d' % (c // 100, c % 100), '    Equity:Open', '']
+    return '\n'.join(lines) + '\n'
 
 
 def gen_case(rng, exhaustive=None):
@@ -195,13 +228,14 @@ def gen_case(rng, exhaustive=None):
     case = dict(q=q, n=n, sow=sow, align=rng.random() < 0.4, empty=rng.random() < 0.35)
     case['from'] = dn(f) if f else None
     case['to'] = dn(t) if t else None
-    case['expr'] = expr_text(rng, case)
+    case['group'] = False
+    set_format(rng, case, None)
     return case
 
 
 # ---- running ledger ------------------------------------------------------------------------------
 ROWFMT = '%(format_date(date, "%Y-%m-%d"))|%(verif_rational(amount))|%(payee)|%(account)\\n'
-PLAINFMT = '%(format_date(date, "%Y-%m-%d"))|%(verif_rational(amount))\\n'
+PLAINFMT = '%(format_date(date, "%Y-%m-%d"))|%(verif_rational(amount))|%(payee)\\n'
 
 
 def parse_amt(s):
@@ -215,55 +249,74 @@ def pdate(s):
     return datetime.datetime.strptime(s, '%Y-%m-%d').date()
 
 
+def fmt_args(case):
+    return ['--input-date-format', case['fmt']] if case.get('fmt') else []
+
+
 def reg_args(case, jpath):
-    a = ['-f', jpath, 'reg', '^Assets:A', '--period', case['expr'], '--now', '2021/06/15',
-         '--date-format', '%Y-%m-%d', '--format', ROWFMT]
+    a = ['-f', jpath] + fmt_args(case) + ['reg', '^Assets:A', '--period', case['expr'], '--now', '2021/06/15',
+                                          '--date-format', '%Y-%m-%d', '--format', ROWFMT]
     if case['sow'] != 0 or case.get('sow_explicit'):
         a += ['--start-of-week', str(case['sow'])]
     if case['align']:
         a += ['--align-intervals']
     if case['empty']:
         a += ['--empty']
+    if case.get('group'):
+        a += ['--group-by', 'payee']
     return a
 
 
 def run_reg(case, jpath):
+    """-> ('OK', rows) or, with --group-by, ('OK', [(title, rows), ...]); a row is (first day, last day, amount, account)"""
     st, out, err = lib.run_ledger(reg_args(case, jpath))
     if st != 0:
         return ('ERR', st, err.decode('utf-8', 'replace')[:200])
     rows = []
+    groups = []
     for l in out.decode().split('\n'):
         if not l:
             continue
         p = l.split('|')
+        if case.get('group') and len(p) == 1:
+            rows = []
+            groups.append((l, rows))          # the title line of a group
+            continue
         if len(p) != 4 or not p[2].startswith('- '):
             return ('ERR', 'row', l)
         amt = parse_amt(p[1])
         if amt is None:
             return ('ERR', 'amount', l)
         rows.append((pdate(p[0]), pdate(p[2][2:]), amt, p[3]))
+    if case.get('group'):
+        return ('OK', groups)
     return ('OK', rows)
 
 
 def run_plain(case, jpath):
-    a = ['-f', jpath, 'reg', '^Assets:A', '--now', '2021/06/15', '--format', PLAINFMT]
+    """the unperiodised postings within the stated bounds, selected by a value-expression limit (which does not
+    go through the period parser): [(date, amount, payee)]"""
+    a = ['-f', jpath] + fmt_args(case) + ['reg', '^Assets:A', '--now', '2021/06/15', '--format', PLAINFMT]
+    lim = []
     if case['from'] is not None:
-        a += ['--begin', nd(case['from']).strftime('%Y/%m/%d')]
+        lim.append('date>=[%s]' % nd(case['from']).strftime('%Y/%m/%d'))
     if case['to'] is not None:
-        a += ['--end', nd(case['to']).strftime('%Y/%m/%d')]
+        lim.append('date<[%s]' % nd(case['to']).strftime('%Y/%m/%d'))
+    if lim:
+        a += ['--limit', ' & '.join(lim)]
     st, out, err = lib.run_ledger(a)
     if st != 0:
         return None
     res = []
     for l in out.decode().split('\n'):
         if l:
-            d, amt = l.split('|')
-            res.append((pdate(d), parse_amt(amt)))
+            d, amt, payee = l.split('|')
+            res.append((pdate(d), parse_amt(amt), payee))
     return res
 
 
-def run_period(expr):
-    st, out, err = lib.run_ledger(['period', expr, '--now', '2021/06/15'])
+def run_period(case):
+    st, out, err = lib.run_ledger(fmt_args(case) + ['period', case['expr'], '--now', '2021/06/15'])
     if st != 0:
         return ('ERR', st)
     text = out.decode()
@@ -278,27 +331,51 @@ def run_period(expr):
 
 
 # ---- model ---------------------------------------------------------------------------------------
-def model_reg_line(cid, case, posts_in):
-    return lib.sx(['reg', cid, case['q'], case['n'], case['from'] if case['from'] is not None else '-',
-                   case['to'] if case['to'] is not None else '-', case['sow'], case['align'], case['empty']]
-                  + [[dn(d), c, 100] for d, c in posts_in])
+def model_head(kind, cid, case):
+    return [kind, cid, case['q'], case['n'], case['from'] if case['from'] is not None else '-',
+            case['to'] if case['to'] is not None else '-']
+
+
+def model_tail(case):
+    """the format the bounds are written in (as bytes) and the current year"""
+    return [bounds_format(case).encode(), NOW.year]
+
+
+def model_reg_line(cid, case, posts):
+    """all postings of the account in date order (stable, as std::stable_sort); the driver limits them to the
+    bounds the model derives from the text; with --group-by: one list per payee, in payee order, journal order"""
+    head = model_head('greg' if case.get('group') else 'reg', cid, case) + [case['sow'], case['align'], case['empty']] + model_tail(case)
+    if case.get('group'):
+        gs = []
+        for payee in sorted({p[2] for p in posts}):
+            gs.append(['group'] + [[dn(d), c, 100] for d, c, pp in posts if pp == payee])
+        return lib.sx(head + gs)
+    return lib.sx(head + [[dn(d), c, 100] for d, c, _ in sorted(posts, key=lambda p: p[0])])
 
 
 def model_period_line(cid, case):
-    return lib.sx(['period', cid, case['q'], case['n'], case['from'] if case['from'] is not None else '-',
-                   case['to'] if case['to'] is not None else '-', dn(NOW)])
+    return lib.sx(model_head('period', cid, case) + [dn(NOW)] + model_tail(case))
+
+
+def parse_rows_body(body):
+    if body == 'ERR':
+        return None
+    rows = []
+    for r in (body.split(';') if body else []):
+        s, e, amt, cnt = r.split(':')
+        n, d = amt.split('/')
+        rows.append((nd(int(s)), nd(int(e) - 1), F(int(n), int(d)), int(cnt)))
+    return rows
 
 
 def parse_model_rows(line):
     body = line.split(' ', 1)[1]
     if body == 'ERR':
         return ('ERR',)
-    body = body[len('rows='):]
-    rows = []
-    for r in (body.split(';') if body else []):
-        s, e, amt, cnt = r.split(':')
-        n, d = amt.split('/')
-        rows.append((nd(int(s)), nd(int(e) - 1), F(int(n), int(d)), int(cnt)))
+    if body.startswith('groups='):
+        body = body[len('groups='):]
+        return ('OK', [parse_rows_body(g) for g in body.split('|')] if body else [])
+    rows = parse_rows_body(body[len('rows='):])
     return ('OK', rows)
 
 
@@ -386,70 +463,120 @@ def century_fix(samples):
 
 
 # ---- the run -------------------------------------------------------------------------------------
+def canon_rows(rows, impl):
+    if impl:
+        return [(s, e, a, 0 if acct == '<None>' else 1) for s, e, a, acct in rows]
+    return [(s, e, a, 1 if c else 0) for s, e, a, c in rows]
+
+
+def full_case(case, journal):
+    return dict(expr=case['expr'], sow=case['sow'], align=case['align'], empty=case['empty'], q=case['q'], n=case['n'],
+                fmt=case.get('fmt'), bfmt=case.get('bfmt'), group=bool(case.get('group')),
+                **{'from': case['from'], 'to': case['to']}, journal=journal['text'])
+
+
+def oracle_rows(case, rows, posts, lab, viol):
+    """rows of one report (or of one group) against the postings (date, amount) it has to account for"""
+    for key, desc in oracle_intervals(case, [(s, e) for s, e, _, _ in rows], case['empty'], 'reg'):
+        viol(key, desc, [str(r[:3]) for r in rows][:12], 'consecutive aligned intervals of one duration within the bounds')
+    if sum(a for _, a in posts) != sum(r[2] for r in rows):
+        viol(lab + ':sum', 'interval subtotals add up to %s, the unperiodised total within the bounds is %s' % (sum(r[2] for r in rows), sum(a for _, a in posts)),
+             str(sum(r[2] for r in rows)), str(sum(a for _, a in posts)))
+    for s, e, a, _ in rows:
+        want = sum(x for d, x in posts if s <= d <= e)
+        if want != a:
+            viol(lab + ':posting-in-wrong-interval', 'row %s..%s shows %s, the postings dated in it add up to %s' % (s, e, a, want), str(a), str(want))
+            break
+    covered = sum(1 for d, _ in posts if any(s <= d <= e for s, e, _, _ in rows))
+    if covered != len(posts):
+        viol(lab + ':posting-not-counted', '%d of %d postings within the bounds lie in no reported interval' % (len(posts) - covered, len(posts)), covered, len(posts))
+
+
 def check_reg(res, case, journal, impl, plain, model):
     cid = '%s@j%d' % (case['expr'], journal['idx'])
-    opts = 'sow=%d align=%d empty=%d' % (case['sow'], case['align'], case['empty'])
-    full = dict(expr=case['expr'], sow=case['sow'], align=case['align'], empty=case['empty'], q=case['q'], n=case['n'],
-                **{'from': case['from'], 'to': case['to']}, journal=journal['text'])
+    opts = 'sow=%d align=%d empty=%d fmt=%s%s' % (case['sow'], case['align'], case['empty'], case.get('fmt'), ' group-by' if case.get('group') else '')
+    full = full_case(case, journal)
     res.evaluations += 1
     res.traces += 1
     res.count('reg:q=%s' % case['q'])
     res.count('reg:n=%d' % case['n'])
     res.count('reg:bounds=%s%s' % ('F' if case['from'] is not None else '-', 'T' if case['to'] is not None else '-'))
     res.count('reg:sow=%d' % case['sow'])
+    res.count('reg:input-date-format=%s' % (case.get('fmt') or 'none'))
+    if case.get('fmt') and case.get('bfmt') and (case['from'] is not None or case['to'] is not None):
+        res.count('reg:bounds-written-in-input-date-format')
     if case['align']:
         res.count('reg:align')
     if case['empty']:
         res.count('reg:empty')
+    if case.get('group'):
+        res.count('reg:group-by')
     # correspondence
-    if impl[0] != 'OK' or model[0] != 'OK':
-        if impl[0] != model[0]:
+    if impl[0] != 'OK' or model[0] != 'OK' or (case.get('group') and any(g is None for g in model[1])):
+        if impl[0] != model[0] or impl[0] == 'OK':
             res.disagreements.append(dict(name='C13/reg-rows', case=full, impl=str(impl)[:300], model=str(model)[:300]))
         return
-    irows = [(s, e, a, 0 if acct == '<None>' else 1) for s, e, a, acct in impl[1]]
-    mrows = [(s, e, a, 1 if c else 0) for s, e, a, c in model[1]]
-    if irows != mrows:
-        k = next((i for i in range(min(len(irows), len(mrows))) if irows[i] != mrows[i]), min(len(irows), len(mrows)))
-        res.disagreements.append(dict(name='C13/reg-rows', case=full, opts=opts,
-                                      impl='%d rows; row %d: %s' % (len(irows), k, irows[k] if k < len(irows) else None),
-                                      model='%d rows; row %d: %s' % (len(mrows), k, mrows[k] if k < len(mrows) else None)))
-    rows = impl[1]
+    if case.get('group'):
+        icanon = [canon_rows(rows, True) for _, rows in impl[1]]
+        mcanon = [canon_rows(rows, False) for rows in model[1]]
+        if icanon != mcanon:
+            k = next((i for i in range(min(len(icanon), len(mcanon))) if icanon[i] != mcanon[i]), min(len(icanon), len(mcanon)))
+            res.disagreements.append(dict(name='C13/group-by-rows', case=full, opts=opts,
+                                          impl='%d groups; group %d: %s' % (len(icanon), k, str(icanon[k])[:300] if k < len(icanon) else None),
+                                          model='%d groups; group %d: %s' % (len(mcanon), k, str(mcanon[k])[:300] if k < len(mcanon) else None)))
+        rows = [r for _, rs in impl[1] for r in rs]
+    else:
+        irows, mrows = canon_rows(impl[1], True), canon_rows(model[1], False)
+        if irows != mrows:
+            k = next((i for i in range(min(len(irows), len(mrows))) if irows[i] != mrows[i]), min(len(irows), len(mrows)))
+            res.disagreements.append(dict(name='C13/reg-rows', case=full, opts=opts,
+                                          impl='%d rows; row %d: %s' % (len(irows), k, irows[k] if k < len(irows) else None),
+                                          model='%d rows; row %d: %s' % (len(mrows), k, mrows[k] if k < len(mrows) else None)))
+        rows = impl[1]
     if len(rows) >= 2:
         res.nontrivial.add(cid + ' ' + opts)
         res.count('reg:rows>=2')
-    if rows and case['from'] is not None and rows[0][0] == nd(case['from']) and not aligned(rows[0][0], case['q'], case['sow']):
-        res.count('reg:first-interval-clipped')
-    if rows and case['to'] is not None and rows[-1][1] + datetime.timedelta(days=1) == nd(case['to']):
-        res.count('reg:last-interval-clipped')
-    if len(res.samples) < 4 and len(rows) >= 3:
-        res.samples.append(dict(expr=case['expr'], options=opts, rows=['%s..%s %s' % (s, e, a) for s, e, a, _ in rows[:4]]))
+    if not case.get('group'):
+        if rows and case['from'] is not None and rows[0][0] == nd(case['from']) and not aligned(rows[0][0], case['q'], case['sow']):
+            res.count('reg:first-interval-clipped')
+        if rows and case['to'] is not None and rows[-1][1] + datetime.timedelta(days=1) == nd(case['to']):
+            res.count('reg:last-interval-clipped')
+        if len(res.samples) < 4 and len(rows) >= 3 and (case.get('fmt') or len(res.samples) < 2):
+            res.samples.append(dict(expr=case['expr'], options=opts, rows=['%s..%s %s' % (s, e, a) for s, e, a, _ in rows[:4]]))
     # oracle
     def viol(key, desc, observed, required):
         res.violations.append(dict(key=key, desc='%s (%s %s)' % (desc, case['expr'], opts), case=full, observed=observed, required=required))
-    for key, desc in oracle_intervals(case, [(s, e) for s, e, _, _ in rows], case['empty'], 'reg'):
-        viol(key, desc, [str(r[:3]) for r in rows][:12], 'consecutive aligned intervals of one duration within the bounds')
     if plain is None:
         viol('reg:plain-report-failed', 'the unperiodised report failed', None, 'a report')
         return
     lab = 'reg:%s' % dur_label(case)
-    if sum(a for _, a in plain) != sum(r[2] for r in rows):
-        viol(lab + ':sum', 'interval subtotals add up to %s, the unperiodised total within the bounds is %s' % (sum(r[2] for r in rows), sum(a for _, a in plain)),
-             str(sum(r[2] for r in rows)), str(sum(a for _, a in plain)))
-    for s, e, a, _ in rows:
-        want = sum(x for d, x in plain if s <= d <= e)
-        if want != a:
-            viol(lab + ':posting-in-wrong-interval', 'row %s..%s shows %s, the postings dated in it add up to %s' % (s, e, a, want), str(a), str(want))
+    if not case.get('group'):
+        oracle_rows(case, rows, [(d, a) for d, a, _ in plain], lab, viol)
+        return
+    # --group-by payee: the groups partition the postings within the bounds, and each group's period rows
+    # account for exactly that group's postings
+    titles = [t for t, _ in impl[1]]
+    payees = sorted({pp for _, _, pp in plain})
+    if sorted(titles) != payees or len(set(titles)) != len(titles):
+        viol('group-by:groups-are-not-the-payees', 'groups %s, payees of the postings within the bounds %s' % (titles, payees), titles, payees)
+        return
+    def gviol(key, desc, observed, required):
+        # whatever the symptom (sum, a row of another group's month, a posting counted twice): one class
+        viol('group-by:group-rows-differ-from-the-groups-postings', '[%s] %s' % (key, desc), observed, required)
+    for t, grows in impl[1]:
+        mine = [(d, a) for d, a, pp in plain if pp == t]
+        before = len(res.violations)
+        oracle_rows(case, grows, mine, lab, lambda key, desc, o, r: gviol(key, 'group %s: %s' % (t, desc), o, r) if key.split(':')[-1] in ('sum', 'posting-in-wrong-interval', 'posting-not-counted') else viol(key, 'group %s: %s' % (t, desc), o, r))
+        if len(res.violations) > before:
             break
-    covered = sum(1 for d, _ in plain if any(s <= d <= e for s, e, _, _ in rows))
-    if covered != len(plain):
-        viol(lab + ':posting-not-counted', '%d of %d postings within the bounds lie in no reported interval' % (len(plain) - covered, len(plain)), covered, len(plain))
 
 
 def check_period(res, case, impl, model_line):
     res.evaluations += 1
     res.traces += 1
     res.count('period:q=%s' % case['q'])
-    full = dict(expr=case['expr'], q=case['q'], n=case['n'], **{'from': case['from'], 'to': case['to']})
+    full = dict(expr=case['expr'], q=case['q'], n=case['n'], fmt=case.get('fmt'), bfmt=case.get('bfmt'), **{'from': case['from'], 'to': case['to']})
+    res.count('period:input-date-format=%s' % (case.get('fmt') or 'none'))
     body = model_line.split(' ', 1)[1]
     if body == 'ERR' or impl[0] != 'OK':
         if not (body == 'ERR' and impl[0] != 'OK'):
@@ -497,11 +624,8 @@ def grid_journal(ctx):
     for y, m in [(2019, 12)] + [(2020, m) for m in range(1, 13)] + [(2021, 1), (2021, 2)]:
         dates.add(datetime.date(y, m, calendar.monthrange(y, m)[1]))
         dates.add(datetime.date(y, m, 1))
-    posts = [(d, 100 + 7 * i) for i, d in enumerate(sorted(dates))]
-    lines = []
-    for i, (d, c) in enumerate(posts):
-        lines += ['%s g%d' % (d.strftime('%Y/%m/%d'), i), '    Assets:A    $%d.%02d' % (c // 100, c % 100), '    Equity:Open', '']
-    jn = dict(idx=-1, posts=posts, text='\n'.join(lines) + '\n', style='grid', path=ctx.path('grid.dat'))
+    posts = [(d, 100 + 7 * i, PAYEES[(i * 7 + i // 5) % 3]) for i, d in enumerate(sorted(dates))]
+    jn = dict(idx=-1, posts=posts, text=journal_text(posts, None), style='grid', path=ctx.path('grid.dat'), fmt=None)
     open(jn['path'], 'w').write(jn['text'])
     return jn
 
@@ -521,7 +645,11 @@ def grid_cases(rng):
                             c = dict(q=q, n=n, sow=sow, align=align, empty=(n + sow) % 2 == 0)
                             c['from'] = dn(datetime.date(*f)) if f else None
                             c['to'] = dn(datetime.date(*t)) if t else None
-                            c['expr'] = expr_text(rng, c)
+                            k = len(out)
+                            c['group'] = (k % 11 == 0)
+                            # the grid journal is written in %Y/%m/%d, which every run still reads; the bounds of
+                            # two cases in three are written in an --input-date-format
+                            set_format(rng, c, FORMATS[(k // 3) % len(FORMATS)] if k % 3 else None)
                             out.append(c)
     return out
 
@@ -532,6 +660,7 @@ def cases_for(ctx, rng, n_reg, n_period, exhaustive):
     for i in range(n_period):
         ex = combos[i % len(combos)] if (exhaustive or i < len(combos)) else None
         c = gen_case(rng, ex)
+        set_format(rng, c, rng.choice(FORMATS) if rng.random() < 0.5 else None)
         periods.append(c)
     for i in range(n_reg):
         ex = combos[i % len(combos)] if (exhaustive and i % 2 == 0) or i < len(combos) else None
@@ -540,15 +669,18 @@ def cases_for(ctx, rng, n_reg, n_period, exhaustive):
 
 
 def run(ctx, n_override=None):
+    t_run = time.time()
     rng = ctx.rng
     res = lib.Result()
     res.rule = ('period expressions (named forms, `every N units` with N in 1..12, `every unit`; from/since and to/until '
                 'bounds on month ends, leap days, period boundaries +-1 and random dates; week starts 0-6; --align-intervals, '
-                '--empty) x journals of 1-120 postings dated over 2019-2025; `ledger period` output and `reg --period` '
+                '--empty; --input-date-format with month names, other field orders, separators and two-digit years, the bounds '
+                'and the journal dates written in it; --group-by payee) x journals of 1-120 postings dated over 2019-2025; '
+                '`ledger period` output and `reg --period` '
                 'rows compared with the model; non-trivial = at least two intervals reported; distinct by expression, '
                 'journal and options')
-    n_reg = n_override or ctx.scale(1800, 20000)
-    n_period = ctx.scale(500, 5000)
+    n_reg = n_override or ctx.scale(1800, 12000)
+    n_period = ctx.scale(500, 3000)
     n_j = ctx.scale(30, 200)
     exhaustive = ctx.tier == 'thorough'
     journals = []
@@ -577,7 +709,9 @@ def run(ctx, n_override=None):
                 c['from'] = None
             if c['from'] is not None and c['to'] is not None and c['to'] <= c['from']:
                 c['to'] = c['from'] + rng.choice([1, 2, 45])
-            c['expr'] = expr_text(rng, c)
+        c['group'] = rng.random() < 0.12
+        # the journal's dates are written in its own format; the run names it and the bounds are written in it too
+        set_format(rng, c, jn['fmt'])
         jobs.append((c, jn))
     grid = grid_cases(rng)
     if not exhaustive:
@@ -591,20 +725,23 @@ def run(ctx, n_override=None):
     with ThreadPoolExecutor(max_workers=min(8, lib.NCPU)) as ex:
         impl_reg = list(ex.map(lambda cj: run_reg(cj[0], cj[1]['path']), jobs))
         plain_keys = sorted({(jn['idx'], c['from'], c['to']) for c, jn in jobs}, key=str)
-        plain_vals = list(ex.map(lambda k: run_plain({'from': k[1], 'to': k[2]}, journals_by_idx[k[0]]['path']), plain_keys))
-        impl_period = list(ex.map(lambda c: run_period(c['expr']), periods))
+        plain_vals = list(ex.map(lambda k: run_plain({'from': k[1], 'to': k[2], 'fmt': journals_by_idx[k[0]]['fmt']},
+                                                     journals_by_idx[k[0]]['path']), plain_keys))
+        impl_period = list(ex.map(run_period, periods))
+    lib.log('C13: implementation runs done %.0fs' % (time.time() - t_run))
     plain = dict(zip(plain_keys, plain_vals))
     lines = []
     for i, (c, jn) in enumerate(jobs):
-        posts_in = sorted([p for p in jn['posts'] if within(c, p[0])], key=lambda p: p[0])   # stable, as std::stable_sort
-        lines.append(model_reg_line('r%d' % i, c, posts_in))
+        lines.append(model_reg_line('r%d' % i, c, jn['posts']))
     for i, c in enumerate(periods):
         lines.append(model_period_line('p%d' % i, c))
     out = lib.run_model('C13', lines)
+    lib.log('C13: model done %.0fs' % (time.time() - t_run))
     for i, (c, jn) in enumerate(jobs):
         check_reg(res, c, jn, impl_reg[i], plain[(jn['idx'], c['from'], c['to'])], parse_model_rows(out[i]))
     for i, c in enumerate(periods):
         check_period(res, c, impl_period[i], out[len(jobs) + i])
+    lib.log('C13: checks done %.0fs' % (time.time() - t_run))
     calendar_spot(ctx, rng, res)
     return res
 
@@ -651,15 +788,23 @@ def replay(ctx, obj):
         plain = run_plain(c, path)
         jn = dict(idx=0, text=case['journal'], posts=[])
         r2 = lib.Result()
-        check_reg(r2, c, jn, impl, plain, impl if impl[0] != 'OK' else ('OK', [(s, e, a, 0 if acct == '<None>' else 1) for s, e, a, acct in impl[1]]))
-        print('replay: reg --period %r -> %s' % (case['expr'], str(impl)[:600]))
+        # the oracle only: hand check_reg the implementation's own rows as "model"
+        if impl[0] != 'OK':
+            model = impl
+        elif c.get('group'):
+            model = ('OK', [[(s, e, a, 0 if acct == '<None>' else 1) for s, e, a, acct in rows] for _, rows in impl[1]])
+        else:
+            model = ('OK', [(s, e, a, 0 if acct == '<None>' else 1) for s, e, a, acct in impl[1]])
+        check_reg(r2, c, jn, impl, plain, model)
+        print('replay: %s reg --period %r%s -> %s' % (' '.join(fmt_args(c)), case['expr'], ' --group-by payee' if c.get('group') else '', str(impl)[:600]))
         res.violations = [v for v in r2.violations if v['key'] == obj.get('key')] or r2.violations
     elif 'expr' in case:
-        impl = run_period(case['expr'])
-        print('replay: period %r -> %s' % (case['expr'], str(impl)[:600]))
-        r2 = lib.Result()
+        impl = run_period(case)
+        print('replay: %s period %r -> %s' % (' '.join(fmt_args(case)), case['expr'], str(impl)[:600]))
         if impl[0] == 'OK':
             ivs = century_fix(impl[4])
-            for key, desc in oracle_intervals(dict(case, align=False), ivs, True, 'period'):
+            for key, desc in oracle_intervals(dict(case, align=False, sow=0), ivs, True, 'period'):
                 res.violations.append(dict(key=key, desc=desc))
+            if case.get('from') is not None and ivs and ivs[0][0] != nd(case['from']):
+                res.violations.append(dict(key='period:first-start-not-from', desc='first interval starts at %s' % ivs[0][0]))
     return res
